@@ -29,7 +29,7 @@ from props.common import account, oracle_run
 
 DRIVERS = ["mpi_solve"]
 MODEL = "dist"
-MPIRUN = ["mpirun", "--allow-run-as-root", "--oversubscribe", "-n"]
+MPIRUN = ["mpirun", "--allow-run-as-root", "--oversubscribe", "--bind-to", "none", "--mca", "mpi_yield_when_idle", "1", "-n"]
 TIMEOUT = 150
 ASSUMPTIONS = [
     "MPI runtime: progress / deadlock freedom / arrival order are not modelled; every mpirun runs under timeout",
@@ -168,6 +168,8 @@ def check_solve(line, out, np_, olines, fails, ctx):
     h = re.findall(r"it=(\S+) res=(\S+) bits=(\S+)", heads[0])
     it, res = int(h[-1][0]), h[-1][1]
     # ---- truthfulness: exact true residual of the assembled solution vs reported residual
+    if any(w in m.group(2) for m in ms for w in ("nan", "inf")):
+        return fail("finite solution on every rank", got=[m.group(2)[:80] for m in ms])
     x = []
     for m in ms: x += parse_out_vec(m.group(2))
     if len(x) != c.n: return fail("solution slices cover the system", got=len(x))
@@ -269,7 +271,12 @@ def run(ctx, cases_override=None):
             cid, op = l.split(" ", 2)[:2]
             o = impl.get(cid)
             if o is None and crashed: continue           # not run: an earlier case of its shard hung / crashed
-            (check_solve if op == "solve" else check_direct)(l, o, np_, olines, fails, ctx)
+            try:
+                (check_solve if op == "solve" else check_direct)(l, o, np_, olines, fails, ctx)
+            except Exception as e:
+                fails.append(dict(kind="counterexample", case=l, impl=(o or "")[:3000], model=None, op=op, size=len(l), np=np_,
+                                  oracle=dict(op="well-formed report", error=repr(e)[:300]),
+                                  theorem="C12 well-formed report on every rank (%d ranks)" % np_))
         # second stage: exact oracles evaluated by the extracted Coq specification functions
         what = {ol.split(" ", 1)[0]: w for w, ol in olines}
         f2 = oracle_run(ctx, [ol for _, ol in olines], "C12 oracle", lambda oid: oid)
